@@ -6,6 +6,7 @@ import CandidModel.Driver.Labels
 import CandidModel.Driver.De
 import CandidModel.Driver.Text
 import CandidModel.Driver.Check
+import CandidModel.Driver.Bindgen
 /-
   Line-protocol driver.  One request per line: `<op>\t<arg>\t<arg>…`; one answer per line:
   `<model answer>\t<spec answer>` (or `bad-op` for what no handler accepts — never a default).
@@ -13,7 +14,7 @@ import CandidModel.Driver.Check
 open Candid Candid.Driver
 
 def handlers : List (String → List String → Option String) :=
-  [handleLeb, handlePrincipal, handleSubtype, handleWire, handleLabels, handleDe, handleText, handleCheck]
+  [handleLeb, handlePrincipal, handleSubtype, handleWire, handleLabels, handleDe, handleText, handleCheck, handleBindgen]
 
 def answer (line : String) : String :=
   match line.splitOn "\t" with
